@@ -12,7 +12,7 @@ import vlib
 
 LEVEL = "proof"
 COMPONENTS = ["merkle root", "spend-info items (leaf, depth, merkle path)", "TapTree::combine depth list",
-              "parsed depth list (TapTreeBuilder)", "printed brace tokens (fmt_helper)", "translate_pk depth list",
+              "parsed depth list (TapTreeBuilder)", "printed brace tokens (fmt_helper)", "translate_pk depth list", "to_tap_tree depth list",
               "case stream well-formed"]
 
 
@@ -143,7 +143,9 @@ def run(rep, tier, seed, replay):
                 "TapTree::combine and through the parser, re-parsed from Display, translated with an injective key map (same key type and from named keys); "
                 "every shape with 2..6 leaves (and random larger ones) built through the API with ONE Arc<Miniscript> shared by several leaf "
                 "positions (each adjacent pair, distance-2 pairs, all, alternating, disjoint pairs, random runs), translated and also instantiated "
-                "over wildcard xpub keys and derived with derive_at_index / derived_descriptor (expected keys by bitcoin::bip32)"
+                "over wildcard xpub keys and derived with derive_at_index / derived_descriptor (expected keys by bitcoin::bip32); on every variant also "
+                "Tr::address / Descriptor::address on all five networks (= address of OP_1 <oracle output key>) and TrSpendInfo::to_tap_tree "
+                "(no panic, leaf multiset with merkle branches = BIP341 paths, root); PSBT output update (tap_internal_key, tap_tree) on derived descriptors"
                 % (9 if tier == "thorough" else 8),
         "families": r["families"], "leaves_hist": r["leaves_hist"], "height_hist": r["height_hist"],
         "leaf_kind_hist": r["leaf_kind_hist"], "key_type_hist": r["key_type_hist"],
